@@ -117,6 +117,18 @@ def check_case(prog, env, pid, want_schedules=True, forms=None, sched_cap=48):
                     viols.append((kind, f'requested {req}: {msg}', {'requested': req}))
         if pid == 'C05' and rab.final_inputs == rba.final_inputs and rab.canon() != rba.canon():
             viols.append(('request-order-dependent', f'requested [a, b] vs [b, a]: {_brief(rab)} vs {_brief(rba)}', None))
+    if pid in ('C01', 'C04') and 'm:' in repr(prog):
+        # a multi-copy form requested by its bare name and as a numbered copy, in both orders, next to 'a'
+        for req in (['m', 'm:0', 'a'], ['m:0', 'm', 'a'], ['a', 'm', 'm:1']):
+            rr = e2a.execute(prog, env, schedule=world.Schedule('natural'), requested=tuple(req), forms=forms)
+            cnt['executions'] += 1
+            if pid == 'C01':
+                for kind, msg in refeval.compare(rr, refeval.Ref(forms, req, rr.final_inputs).run()):
+                    viols.append((kind, f'requested {req}: {msg}', {'requested': req}))
+            else:
+                errs, _ = monitors.c04(forms, req, rr)
+                for kind, msg in errs:
+                    viols.append((kind, f'requested {req}: {msg}', {'requested': req}))
     if pid in ('C01', 'C04') :
         # specifically requested optional lines: Solver.solve(forms, field_names)
         for l in prog:
@@ -154,6 +166,30 @@ def check_case(prog, env, pid, want_schedules=True, forms=None, sched_cap=48):
             if not st.config.has_section(sec):
                 st.config.add_section(sec)
             st.config.set(sec, key, saved)
+    if pid == 'C01' and any(l['form'] == 'b' for l in prog):
+        # histories on one Solver: solve(first); solve(second) where the second form was not pulled in by the first.
+        # What the second call returns must be the verdict for both requests together (a verdict is not remembered
+        # from the previous call).
+        for first, second in (('a', 'b'), ('b', 'a')):
+            r1 = world.run_solve(forms, [first], env['file'], answer=None, schedule=world.Schedule('natural'), keep_solver=True)
+            cnt['executions'] += 1
+            s = r1.solver
+            if r1.exc is not None or second in s.forms:
+                continue
+            try:
+                v2 = s.solve([second])
+            except Exception:
+                continue            # an abort is an allowed outcome
+            cnt['executions'] += 1
+            cnt['second_calls'] = cnt.get('second_calls', 0) + 1
+            problems = (sorted(s.unimplemented_fields()), sorted(k for k, v in s.unmet_input_dependencies().items() if v),
+                        sorted(k for k, v in s.unmet_field_dependencies().items() if v))
+            if v2 and any(problems):
+                viols.append(('second-call:silent-success', f'solve([{first}]) then solve([{second}]) on one Solver returns True with '
+                              f'unimplemented={problems[0]} missing inputs={problems[1]} blocked={problems[2]}', None))
+            ref2 = refeval.Ref(forms, [first, second], r1.final_inputs).run()
+            if ref2.abort is None and bool(v2) != ref2.solved():
+                viols.append(('second-call:verdict', f'solve([{first}]) then solve([{second}]) returns {v2}; both requests together: solved={ref2.solved()}', None))
     if pid == 'C13' and r0.exc is None and not r0.refused:
         # write back -> second run asks nothing and reproduces the solution
         env2 = dict(file=dict(r0.final_inputs), answers={})
